@@ -72,7 +72,7 @@ class _FuseMinMaxBase(RewriteRuleClassBase, abc.ABC):
     def _is_scalar(self, v: np.ndarray) -> bool:
         return np.isscalar(v) or np.size(v) == 1
 
-    def check(self, context, out1, out2, **_):
+    def check(self, context, out1, out2, x=None, **_):
         """Condition to check if we need to replace the pattern.
 
         Conditions:
@@ -104,6 +104,11 @@ class _FuseMinMaxBase(RewriteRuleClassBase, abc.ABC):
             # If scalars are required (Clip fusion), enforce scalar-ness
             if self.need_scalars and not self._is_scalar(input_.const_value.numpy()):
                 return check_result.fail(f"{input_.name} is not a scalar.")
+            if self.need_scalars and (const_rank := np.ndim(input_.const_value.numpy())) > 0:
+                # Min/Max broadcast: a [1,1] constant raises the rank of a rank-1 result, Clip does not
+                x_rank = x.shape.rank() if x is not None and x.shape is not None else None
+                if x_rank is None or const_rank > x_rank:
+                    return check_result.fail(f"{input_.name} would broadcast the result to a higher rank.")
 
         if self.need_scalars and self.check_bounds:
             # For Clip fusion in the case of Max(Min(X, upper_bound), lower_bound): check that lower_bound <= upper_bound
